@@ -10,6 +10,7 @@ import (
 	"strings"
 	"sync"
 	"testing"
+	"time"
 
 	rxapp "github.com/Dash-Industry-Forum/livesim2/cmd/cmaf-ingest-receiver/app"
 	"pgregory.net/rapid"
@@ -40,10 +41,11 @@ type Case struct {
 	Streams  bool      `json:"streams_urls"`
 	RepCfg   bool      `json:"rep_config"`
 	Repeats  int       `json:"repeats"`
+	ReInit   bool      `json:"resend_inits,omitempty"`
 }
 
 func genCase(t *rapid.T) Case {
-	c := Case{M: rapid.IntRange(2, 6).Draw(t, "M"), Streams: rapid.Bool().Draw(t, "streams"), RepCfg: rapid.Bool().Draw(t, "repcfg"), Repeats: rapid.IntRange(2, 6).Draw(t, "repeats")}
+	c := Case{M: rapid.IntRange(2, 6).Draw(t, "M"), Streams: rapid.Bool().Draw(t, "streams"), RepCfg: rapid.Bool().Draw(t, "repcfg"), Repeats: rapid.IntRange(2, 6).Draw(t, "repeats"), ReInit: rapid.IntRange(0, 2).Draw(t, "reinit") == 0}
 	nch := rapid.IntRange(1, 4).Draw(t, "nch")
 	for ci := 0; ci < nch; ci++ {
 		ch := Channel{Name: fmt.Sprintf("ch%d", ci), Auth: rapid.Bool().Draw(t, "auth"), Shifted: rapid.IntRange(0, 3).Draw(t, "shifted") == 0}
@@ -182,6 +184,17 @@ func runOnce(c Case, storage string, concurrent bool) (*hx.Violation, map[string
 			f()
 		}()
 	}
+	// every upload is answered: a wait that does not end within 20 s is a deadlock between the handlers and the channel goroutine
+	waitAll := func(what string) *hx.Violation {
+		done := make(chan struct{})
+		go func() { wg.Wait(); close(done) }()
+		select {
+		case <-done:
+			return nil
+		case <-time.After(20 * time.Second):
+			return hx.V("upload-never-answered", "%s: at least one concurrent upload was not answered within 20 s", what)
+		}
+	}
 	// phase 1: all first uploads (init segments) at once
 	for _, ch := range c.Channels {
 		for _, tr := range ch.Tracks {
@@ -209,7 +222,9 @@ func runOnce(c Case, storage string, concurrent bool) (*hx.Violation, map[string
 	}
 	if concurrent {
 		close(start)
-		wg.Wait()
+		if v := waitAll("init phase"); v != nil {
+			return v, nil
+		}
 	}
 	if firstV != nil {
 		return firstV, nil
@@ -265,18 +280,62 @@ func runOnce(c Case, storage string, concurrent bool) (*hx.Violation, map[string
 		}
 		if concurrent {
 			close(start)
-			wg.Wait()
+			if v := waitAll(fmt.Sprintf("media number %d", 50+k)); v != nil {
+				return v, nil
+			}
 		}
 	}
 	if firstV != nil {
 		return firstV, nil
+	}
+	settle := uint32(50 + c.M)
+	if c.ReInit {
+		// phase 3: on the started channels every track uploads its next number while the init segments of the first two tracks
+		// arrive again (a sender that reconnects)
+		start = make(chan struct{})
+		for _, ch := range c.Channels {
+			for ti, tr := range ch.Tracks {
+				ch, tr, ti := ch, tr, ti
+				d := dur(tr.Kind)
+				body, err := rx.MediaSeg(tr.Kind, settle, (uint64(settle)+shiftOf(ch))*uint64(d), d, byte(ti+1), true)
+				if err != nil {
+					return hx.V("harness", "%v", err), nil
+				}
+				if !ch.Shifted {
+					bodies[fmt.Sprintf("%s/%s/%d", ch.Name, tr.Name, settle)] = body
+				}
+				do(func() {
+					if code := r.Upload("PUT", c.urlFor(ch, tr, fmt.Sprint(settle)), body, c.hdr(ch), true); code != 200 {
+						fail(hx.V("upload-refused", "%s/%s seq %d (during re-sent inits) -> %d", ch.Name, tr.Name, settle, code))
+					}
+				})
+				if ti < 2 {
+					do(func() {
+						init, _ := rx.Init(tr.Kind)
+						if code := r.Upload("PUT", c.urlFor(ch, tr, "init"), init, c.hdr(ch), true); code != 200 {
+							fail(hx.V("init-refused", "re-sent init of %s/%s -> %d", ch.Name, tr.Name, code))
+						}
+					})
+				}
+			}
+		}
+		if concurrent {
+			close(start)
+			if v := waitAll("re-sent inits with media"); v != nil {
+				return v, nil
+			}
+		}
+		if firstV != nil {
+			return firstV, nil
+		}
+		settle++
 	}
 	// settling step: one more segment number on every track, sequentially with the master track first. Whether the
 	// timeline MPD was already written during phase 2 depends on which track's report reached the channel first (any
 	// sequential order is a legal outcome); after this step every order must have converged to the same MPD.
 	for _, ch := range c.Channels {
 		for ti, tr := range ch.Tracks {
-			seq := uint32(50 + c.M)
+			seq := settle
 			d := dur(tr.Kind)
 			body, err := rx.MediaSeg(tr.Kind, seq, (uint64(seq)+shiftOf(ch))*uint64(d), d, byte(ti+1), true)
 			if err != nil {
